@@ -71,6 +71,52 @@ func outputEq(a, b *vmcommon.VMOutput) bool {
 	return r
 }
 
+// encodedSnapshot is the content of everything the call marshalled so far, in call order.
+func encodedSnapshot(s *Scn) []*world.Handle {
+	var out []*world.Handle
+	for _, b := range s.W.Codec.Marshalled {
+		h := s.W.Codec.Lookup(b)
+		if h == nil {
+			out = append(out, &world.Handle{})
+			continue
+		}
+		c := &world.Handle{Tok: world.CloneToken(h.Tok)}
+		if h.Roles != nil {
+			c.Roles = world.CloneRoles(h.Roles)
+		}
+		out = append(out, c)
+	}
+	return out
+}
+
+func handleEq(a, b *world.Handle) bool {
+	if (a.Tok == nil) != (b.Tok == nil) || (a.Roles == nil) != (b.Roles == nil) {
+		return false
+	}
+	r := true
+	if a.Tok != nil {
+		x, y := a.Tok, b.Tok
+		if (x.Value == nil) != (y.Value == nil) {
+			return false
+		}
+		r = verif.And(r, x.Type == y.Type, len(x.Properties) == len(y.Properties), verif.BytesEq(x.Properties, y.Properties),
+			len(x.Reserved) == len(y.Reserved), verif.BytesEq(x.Reserved, y.Reserved), world.MetaEq(x.TokenMetaData, y.TokenMetaData))
+		if x.Value != nil {
+			r = verif.And(r, x.Value.Cmp(y.Value) == 0)
+		}
+	}
+	if a.Roles != nil {
+		if len(a.Roles.Roles) != len(b.Roles.Roles) {
+			return false
+		}
+		for i := range a.Roles.Roles {
+			x, y := a.Roles.Roles[i], b.Roles.Roles[i]
+			r = verif.And(r, len(x) == len(y), verif.BytesEq(x, y))
+		}
+	}
+	return r
+}
+
 func logsEq(a, b []world.Write) bool {
 	if len(a) != len(b) {
 		return false
@@ -102,6 +148,7 @@ func purityCheck(s *Scn) {
 	out1, err1 := s.Out, s.Err
 	log1 := make([]world.Write, len(s.W.Log))
 	copy(log1, s.W.Log)
+	enc1 := encodedSnapshot(s)
 	s.W.ResetToInit()
 	s.Roles.Rewind()
 	s.Run()
@@ -112,6 +159,15 @@ func purityCheck(s *Scn) {
 	}
 	verif.Assert("same-output", outputEq(out1, out2))
 	verif.Assert("same-writes", logsEq(log1, s.W.Log))
+	// the codec is abstract (a handle per Marshal call): byte-identical results mean that the k-th
+	// encoded object of both runs has the same content, element order included
+	enc2 := encodedSnapshot(s)
+	verif.Assert("same-number-of-encoded-objects", len(enc1) == len(enc2))
+	if len(enc1) == len(enc2) {
+		for i := range enc1 {
+			verif.Assert("same-encoded-content", handleEq(enc1[i], enc2[i]))
+		}
+	}
 	verif.Reach("ran-twice", true)
 	verif.ObserveBool("ok", err1 == nil)
 }
